@@ -257,9 +257,9 @@ def run(ctx) -> None:
                     ctx.fail("R09c", f, st, inst, "_prev_state written outside the control commands")
     # ---- R09d
     # two explorations: one user request per tick gap with a scheduler that may let in-flight commands stall (coarse), and two
-    # requests per gap with the exact scheduler of execute_commands (every driven command steps in every tick)
+    # (quick) or three (thorough) requests per gap with the exact scheduler of execute_commands (every driven command steps in every tick)
     ex = Explorers(Explorer(ctx, faults=True, track=("prev", "cap", "outs", "bad_restore", "err")),
-                   Explorer(ctx, faults=True, track=("prev", "cap", "outs", "bad_restore", "err"), max_pending=2, exact=True))
+                   Explorer(ctx, faults=True, track=("prev", "cap", "outs", "bad_restore", "err"), max_pending=3 if ctx.tier == "thorough" else 2, exact=True))
     ex.explore()
     ctx.extra["states"] = len(ex.reach)
     ctx.extra["transitions"] = ex.edges
